@@ -21,8 +21,12 @@ StdEncId == 5   InternalId == 6 ResId == 7      CIDFontCatId == 8
 CMapCatId == 9  ProcSetCatId == 10  CIDInitId == 11
 NFixed == 11
 
-ImplLimit == 65536      \* ImplLimit65536: arrays, strings, dicts
-MaxDictStack == 20
+\* Resource limits are parameters: the properties ask for *a* limit (C11), not for these
+\* values.  The checks measure them on the library under test (vh probe-limits) and pass
+\* them in; 65536 / 65536 / 65536 / 20 for the library as it stands (ImplLimit65536).
+CONSTANTS ImplLimitArr, ImplLimitStr, ImplLimitDict,   \* largest array / string / dict that may be requested
+          MaxDictStack
+ImplLimitOf(kind) == CASE kind = "array" -> ImplLimitArr [] kind = "string" -> ImplLimitStr [] OTHER -> ImplLimitDict
 InternalPass == BI(1183615869)
 
 R(st, h, ds) == [ok |-> TRUE, st |-> st, h |-> h, ds |-> ds, errs |-> {}]
@@ -140,7 +144,7 @@ NewContainer(kind, st, h, ds) ==
     ELSE LET n == A(st, 0)
          IN IF n.t # "int" THEN ET
             ELSE IF n.i.s < 0 THEN ER
-            ELSE IF Gt(n.i, BI(ImplLimit)) THEN E({"limitcheck", "VMerror"})
+            ELSE IF Gt(n.i, BI(ImplLimitOf(kind))) THEN E({"limitcheck", "VMerror"})
             ELSE LET k == ToNat(n.i)
                      id == NewId(h)
                  IN CASE kind = "array" -> R(Push(Pop(st, 1), ArrV(id, 0, k)), Alloc(h, ArrCell(k)), ds)
